@@ -188,10 +188,14 @@ package types
 // (tier ii of DESIGN section 8 C15: "nopanic dryrun" accepts a panic site whose guard depends on the proposal content
 // only and that lies on every nil-returning path - the submission dry-run has already evaluated it)
 // verif:func (ClientState).Initialize
+// the installed consensus state is the one of the client's own header (root, height and time)
+//@ ensures [consensus-state-of-the-header] result == nil ==> istype(state, *ConsensusState) && bytes.Equal(as(state, *ConsensusState).Root, m.Header.Root) && as(state, *ConsensusState).Height == m.Header.Height && as(state, *ConsensusState).Timestamp == m.Header.Time
 //@ nopanic dryrun
 //@ modifies store
 
 // verif:func (ClientState).UpgradeState
+// the installed consensus state is the one of the client's own header (root, height and time)
+//@ ensures [consensus-state-of-the-header] result == nil ==> istype(state, *ConsensusState) && bytes.Equal(as(state, *ConsensusState).Root, m.Header.Root) && as(state, *ConsensusState).Height == m.Header.Height && as(state, *ConsensusState).Timestamp == m.Header.Time
 //@ nopanic dryrun
 //@ modifies store
 
